@@ -355,6 +355,9 @@ EXTRA_TEXT = {
            "plus its type-scoped contexts, property-scoped contexts for values, the count taken over the whole tree), and safe_success_stores_every_path proves that after a safe-mode success every dotted path "
            "addressing something in the document - any depth, array positions included - has a stored key under the specification of expansion (Ctx.storedKey). Also driven: MerklizeJSONLD through the "
            "library's own HTTP loader and cache over histories with re-published contexts, expiry and transient origin failures (a success is the merklization under one published revision).",
+    "C06": " Lists of proofs (Verify.selectProof / verifyList): list_accepted_one_proof_bound_and_valid - a credential with any list of proofs is accepted only if one and the same proof of the requested type "
+           "is bound to it and verifies over the claim it carries; list_only_first_of_type. Tie: op verify.list - lists mixing a bound-but-unsigned proof, a genuine proof of another credential and a proof of "
+           "another type, in several orders, against the real VerifyProof.",
     "C07": " The same verification also runs through verifiable.HTTPDIDResolver against a scripted gateway (transient 5xx): same verdict, same questions asked. Known finding F8: status nonces are read back through float64 inside VerifyProof; the model receives the nonce as the verifier reads it (oracle column).",
 }
 _FACTS = (" Regenerated tie: on every run a small go/ast translator (harness `facts`) reads {what} off the source and bin/check generates a Lean file whose theorems "
